@@ -505,7 +505,13 @@ func (sc *v17Scn) closeManager() time.Duration {
 	}
 	d := time.Since(t)
 	sc.mu.Lock()
-	sc.observe(v17Ev{K: "closeend", T: sc.ms()})
+	// what the manager did while Close was waiting (a hot restart that ended) comes before the end of Close
+	q := sc.snapshot()
+	evs := sc.infer(sc.last, q)
+	evs = append(evs, v17Ev{K: "closeend", T: sc.ms()})
+	evs[len(evs)-1].Obs = q
+	sc.hist = append(sc.hist, evs...)
+	sc.last = q
 	sc.mu.Unlock()
 	return d
 }
@@ -822,6 +828,102 @@ func v17HotRestart(name string, n int, interval time.Duration, epoch uint64) v17
 	return sc.result()
 }
 
+// SessionManager.Close after a completed hot restart while the OLD server is still alive: the parked
+// sessions belong to the manager.  If Close leaves them open, a HotRestart event that the old server
+// sends on one of them afterwards (what Listener.HotRestart sends again after a listener-side
+// time-out) is handled by the closed manager: it dials and swaps pools after Close.
+func v17CloseWithParked(name string, n int, interval time.Duration, epoch uint64) v17Case {
+	sc, err := v17NewScn(name, n, interval)
+	if err != nil {
+		return v17Case{ID: name, N: n, Oracle: []string{"C17:harness-setup | " + err.Error()}, SkipModel: true}
+	}
+	sc.feat["hot-restart"], sc.feat["close-with-parked-sessions"] = true, true
+	sc.startSampler()
+	oldL := sc.lis
+	srv0 := sc.serverSessionOf(oldL, 0)
+	nl, err := v17NewListener(sc.path)
+	if err != nil || srv0 == nil {
+		sc.fail("C17:harness-setup", "second listener / server session")
+	}
+	sc.mu.Lock()
+	sc.oldLis, sc.lis = oldL, nl
+	sc.mu.Unlock()
+	if err := oldL.HotRestart(epoch); err != nil {
+		sc.fail("C17:harness-setup", "HotRestart: "+err.Error())
+	}
+	dl := time.Now().Add(hotRestartCheckTimeout + 2*time.Second)
+	for time.Now().Before(dl) && !oldL.IsHotRestartDone() {
+		time.Sleep(10 * time.Millisecond)
+	}
+	time.Sleep(150 * time.Millisecond)
+	if sc.accepted(nl) != n {
+		sc.fail("C17:harness-setup", fmt.Sprintf("hand-over incomplete: %d sessions on the new server", sc.accepted(nl)))
+	}
+	for k := 0; k < n; k++ {
+		sc.probe(k, true)
+	}
+	var parked []*Session
+	sc.sm.RLock()
+	for _, p := range sc.sm.reservePools {
+		if p != nil {
+			parked = append(parked, p.Session())
+		}
+	}
+	sc.sm.RUnlock()
+	d := sc.closeManager()
+	sc.setStat("close_ms", int64(d/time.Millisecond))
+	time.Sleep(100 * time.Millisecond)
+	open := 0
+	for _, s := range parked {
+		if !s.IsClosed() {
+			open++
+		}
+	}
+	sc.setStat("parked_sessions", int64(len(parked)))
+	sc.setStat("parked_sessions_open_after_close", int64(open))
+	before := sc.accepted(nl)
+	if srv0 != nil && !srv0.IsClosed() {
+		_ = srv0.hotRestart(epoch+1, typeHotRestart)
+	}
+	time.Sleep(500 * time.Millisecond)
+	if got := sc.accepted(nl) - before; got != 0 {
+		sc.fail("C17:hot-restart-event-after-close-creates-session",
+			fmt.Sprintf("SessionManager.Close returned with %d of %d parked sessions still open; a HotRestart(%d) event sent by the old server on one of them afterwards made the closed manager dial %d new session(s) and swap its pool", open, len(parked), epoch+1, got))
+	}
+	sc.cleanup()
+	return sc.result()
+}
+
+// Close while the manager is in hotRestartState and a watcher is in its sleep loop (its session died
+// during the restart): `time.Sleep(500ms); continue` does not look at ctx, Close waits for the restart
+// to end.  Measured, bounded by the 2 s time-out.
+func v17CloseDuringHotRestart(name string, n int, interval time.Duration, epoch uint64) v17Case {
+	sc, err := v17NewScn(name, n, interval)
+	if err != nil {
+		return v17Case{ID: name, N: n, Oracle: []string{"C17:harness-setup | " + err.Error()}, SkipModel: true}
+	}
+	sc.feat["close-during-hot-restart"], sc.feat["dial-fails"] = true, true
+	sc.startSampler()
+	os.Remove(sc.path)
+	t0 := time.Now()
+	if err := sc.lis.HotRestart(epoch); err != nil {
+		sc.fail("C17:harness-setup", "HotRestart: "+err.Error())
+	}
+	sc.waitFor(time.Second, func(o *v17Obs) bool { return o.State == int64(hotRestartState) })
+	sc.killServerSession(sc.lis, 0)
+	time.Sleep(50 * time.Millisecond)
+	o := sc.peek()
+	sc.setStat("in_hot_restart_at_close", v17b(o.State == int64(hotRestartState)))
+	sc.setStat("close_called_ms_after_hot_restart", int64(time.Since(t0)/time.Millisecond))
+	d := sc.closeManager()
+	sc.setStat("close_ms", int64(d/time.Millisecond))
+	if d > hotRestartCheckTimeout+1500*time.Millisecond {
+		sc.fail("C17:close-blocked-by-hot-restart-state", fmt.Sprintf("SessionManager.Close took %v", d))
+	}
+	sc.cleanup()
+	return sc.result()
+}
+
 // Close while a watcher waits for its rebuild timer
 func v17CloseDuringWait(name string, n int, interval time.Duration) v17Case {
 	sc, err := v17NewScn(name, n, interval)
@@ -917,6 +1019,8 @@ func TestVerif_C17(t *testing.T) {
 			func() v17Case { return v17HotRestart(tag("hotrestart"), 2, i3, ep) },
 			func() v17Case { return v17HotRestart(tag("hotrestart_epoch0"), 2, i4, 0) },
 			func() v17Case { return v17CloseDuringWait(tag("closewait"), 2, i5) },
+			func() v17Case { return v17CloseWithParked(tag("closeparked"), 2, i3, ep+7) },
+			func() v17Case { return v17CloseDuringHotRestart(tag("closehr"), 2, i4, ep+11) },
 		}
 		res := make([]v17Case, len(jobs))
 		var wg sync.WaitGroup
